@@ -236,8 +236,14 @@ def gen_statvfs(rng):
 
 
 def gen_case(rng):
-    return dict(net=gen_net(rng), disk=gen_disk(rng), statvfs=gen_statvfs(rng),
+    case = dict(net=gen_net(rng), disk=gen_disk(rng), statvfs=gen_statvfs(rng),
                 path=rng.choice(["/", "/home", "/mnt/data with space", "/vproc", "."]))
+    whole = [d["name"] for d in case["disk"]["devs"] if d["whole"]]
+    if case["disk"]["mode"] == "procfs" and whole and rng.random() < 0.15:
+        # hot-unplug / re-plug between calls of one program: the device's /sys/block directory goes and comes back while
+        # /proc/diskstats keeps listing it
+        case["hotplug"] = rng.choice(whole)
+    return case
 
 
 # ----------------------------------------------------------------------------------------------
@@ -474,7 +480,7 @@ def check_disk(case, ps, acc, viols):
     # system-wide: whole disks only
     if res[False][0] == "ok":
         tot = res[False][1]
-        whole = [d["name"] for d in devs if d["whole"]]
+        whole = [d["name"] for d in devs if d["whole"] and d["name"] not in case.get("_unplugged", ())]
         if not whole:
             acc.count("empty_convention_checked")
             if tot is not None:
@@ -564,6 +570,20 @@ def run_case(case, acc):
         with vk:
             check_net(case, ps, acc, viols)
             check_disk(case, ps, acc, viols)
+            if case.get("hotplug"):
+                import copy
+                hp = os.path.join(root, case["hotplug"].replace("/", "!"))
+                for phase in ("absent", "present"):
+                    v2 = []
+                    if phase == "absent":
+                        shutil.rmtree(hp, ignore_errors=True)
+                        # the records are what they were; only the set of whole disks (devices /sys/block knows) shrank
+                        check_disk(dict(case, _unplugged=(case["hotplug"],)), ps, acc, v2)
+                    else:
+                        os.mkdir(hp)
+                        check_disk(case, ps, acc, v2)
+                    acc.count("sysfs_changes_between_calls")
+                    viols.extend((m + ":after_sysfs_change", f"[{case['hotplug']} {phase} in /sys/block] " + d_) for m, d_ in v2)
             check_usage(case, ps, acc, viols)
     finally:
         if os.path.isdir(root):
